@@ -24,7 +24,7 @@ RULE = ('seeded segment histories (2-12 segments, 1-4 channels) whose per-object
         'monotonicity (what was read for k segments is a prefix of what is read for k+1). 15% of worlds inject '
         'one forbidden encoding and require an error. distinct = sequence of (flags, header choices); non-trivial '
         '= some object used an inherited encoding (matches-previous, no-data, unlisted carry-over or no metadata)')
-EXPECTED_PROBES = ['t:same-after-none', 't:same-after-absent', 't:meta-less-after-flip', 'reordered-same-set',
+EXPECTED_PROBES = ['forbidden:after-a-file-defining-the-same-paths', 't:same-after-none', 't:same-after-absent', 't:meta-less-after-flip', 'reordered-same-set',
                    'forbidden:same-unseen', 'forbidden:first-no-meta', 'forbidden:type-change', 't:unlisted-carry', 'long-history', 'long-metadata-less-run']
 
 
@@ -112,6 +112,23 @@ def inject_forbidden(rng, spec):
     return kind, spec
 
 
+def prelude_world(spec):
+    """A small well-formed file that gives every channel path of `spec` a full index (i32, 2 values) and data."""
+    names = dict(spec['names'])
+    listed = [{'path': '/', 'index': 'none', 'props': []}]
+    data = {}
+    for p, comps in names.items():
+        if len(comps) == 1:
+            listed.append({'path': p, 'index': 'none', 'props': []})
+    for p, comps in names.items():
+        if len(comps) == 2:
+            listed.append({'path': p, 'index': 'full', 'type': 'i32', 'count': 2, 'props': []})
+            data[p] = [b'\x01\x00\x00\x00\x02\x00\x00\x00']
+    seg = {'endian': '<', 'layout': 'contiguous', 'pad': 0, 'meta': True, 'new_obj_list': True, 'listed': listed,
+           'chunks': 1 if data else 0, 'data': data}
+    return build({'version': 4713, 'names': names, 'segments': [seg]})
+
+
 def generate(rng, tier):
     o = opts(tier)
     for _ in range(20):
@@ -132,6 +149,9 @@ def generate(rng, tier):
             if wf.forbidden:
                 case['spec'] = sp
                 case['forbidden'] = kind
+                # "never defined" means never defined in THIS file: in half of the cases another, well-formed file that
+                # defines the same path (with an index of its own) is read first in the same process
+                case['prelude'] = rng.random() < 0.5
                 break
     return case
 
@@ -318,6 +338,15 @@ def execute(case):
             w = build(spec, allow_forbidden=True)
             res.probe('forbidden:' + case['forbidden'])
             st.put('f.tdms', w.data)
+            if case.get('prelude'):
+                res.probe('forbidden:after-a-file-defining-the-same-paths')
+                pre = prelude_world(spec)
+                st.put('p.tdms', pre.data)
+                ptf = lib.TdmsFile.read(st.source('simstream', 'p.tdms'))
+                for g in ptf.groups():
+                    for c in g.channels():
+                        c[:]
+                popen = lib.TdmsFile.open(st.source('simstream', 'p.tdms'))      # stays open while the forbidden file is read
             for lazy in (False, True):
                 try:
                     src = st.source('simstream', 'f.tdms')
@@ -329,6 +358,8 @@ def execute(case):
                 except Exception as exc:
                     res.ev('rejected', lazy, type(exc).__name__)
                 res.compared += 1
+            if case.get('prelude'):
+                popen.close()
             res.nontrivial = True
             res.fault('forbidden-encoding')
             return res
